@@ -4,6 +4,7 @@ package main
 
 import (
 	"go/ast"
+	"go/constant"
 	"go/token"
 	"go/types"
 	"strings"
@@ -299,6 +300,21 @@ func (fv *FV) applyModel(st *State, call *ast.CallExpr, callee *types.Func, sel 
 		}
 		if full == "fmt.Sprint" && len(vals) == 1 && vals[0].Sort == SInt {
 			return []Term{T(sx("int2str", vals[0].S), SStr)}, true // decimal rendering of one integer
+		}
+		if full == "fmt.Sprintf" && len(vals) >= 1 {
+			if tv, ok := fv.info.Types[call.Args[0]]; ok && tv.Value != nil && !call.Ellipsis.IsValid() {
+				format := constant.StringVal(tv.Value)
+				var sorts []*Sort
+				var as []string
+				for _, v := range vals[1:] {
+					sorts = append(sorts, v.Sort)
+					as = append(as, v.S)
+				}
+				if len(as) == 0 {
+					return []Term{T(fv.ss.StrConst(format), SStr)}, true
+				}
+				return []Term{T(sx(fv.ss.SprintfFn(format, sorts), as...), SStr)}, true
+			}
 		}
 		return []Term{fv.fresh("str", SStr)}, true
 	case "strconv.Itoa", "strconv.FormatUint", "strconv.FormatInt":
